@@ -281,3 +281,26 @@ func TestVerifFinding_C20_CheckRecoveryOnStuckRecordedMaster(t *testing.T) {
 	}
 	t.Logf("no panic")
 }
+
+// (e) a master whose server answers SELECT @@GLOBAL.gtid_executed with an EMPTY result set (zero rows: a proxy or a
+// server in an odd state; "whatever ... MySQL servers contain or return"). Node.GTIDExecuted maps sql.ErrNoRows to
+// (nil, nil) and both of its callers dereference the result without a nil check: getNodeState (every manager
+// iteration and every health check of the local node) and GTIDExecutedParsed (recovery check, switchover).
+func TestVerifFinding_C20_EmptyGtidExecutedResult(t *testing.T) {
+	app, d := vfC20App(t)
+	m1 := vfMaster("m1", vfC20Gtid)
+	r1 := vfReplica("r1", "m1", vfC20Gtid)
+	vfAddNode(t, app, d, m1, false)
+	vfAddNode(t, app, d, r1, false)
+	vfSetLocal(app, r1)
+	m1.EmptyOn = map[string]bool{"@@GLOBAL.gtid_executed": true}
+
+	p, where := vfC20Catch(func() { _ = app.getNodeState("m1") })
+	if p != nil {
+		t.Fatalf("VIOLATION C20: collecting the state of master m1 panicked when the server returned zero rows for gtid_executed: panic: %v [%s]", p, where)
+	}
+	p, where = vfC20Catch(func() { _, _ = app.cluster.Get("m1").GTIDExecutedParsed() })
+	if p != nil {
+		t.Fatalf("VIOLATION C20: GTIDExecutedParsed panicked when the server returned zero rows for gtid_executed: panic: %v [%s]", p, where)
+	}
+}
